@@ -9,7 +9,7 @@ pub const TOL_S: f64 = 10.0;
 
 /// judge one call; returns the hour angle in seconds of time
 pub fn judge(ctx: &Ctx, l: &mut Local, p: &Params, site: Site, date: NaiveDate) {
-    let r = prayer_times_dt(p, site.loc(), date, None);
+    let r = pt(p, site.loc(), date, None);
     l.evals += 1;
     let case = || PtCase::new(p, site, date);
     if r.len() != 7 || SEQ7.iter().any(|k| !r.contains_key(k)) {
